@@ -61,7 +61,7 @@ theorem firstFailing_eq (l : List Res) (h : ∃ r ∈ l, r.status = fail) :
   | cons r rs ih =>
     unfold firstFailing firstFailureMessage
     by_cases hr : r.status = fail
-    · by_cases hm : r.msg = "" <;> simp [hr, hm, fail]
+    · by_cases hm : r.msg = "" <;> simp [hr, hm, fail, Influx.Generated.CheckConsts.StatusFail]
     · have : ∃ r ∈ rs, r.status = fail := by
         obtain ⟨x, hx, hxs⟩ := h
         cases hx with
